@@ -304,6 +304,14 @@ def _expand(P, helper, call, target, counter, at):
     body = [s for s in fn.body if not (isinstance(s, ast.Expr) and isinstance(s.value, ast.Constant) and isinstance(s.value.value, str))]
     body = [_Rename(ren).visit(s) for s in body]
     pre = [ast.copy_location(ast.Assign(targets=[ast.Name(id=ren.get(p, p), ctx=ast.Store())], value=v), at) for (p, v) in binds if p not in keep]
+    if target == '<return>':
+        # `return helper(..)`: the helper's own returns are the caller's returns
+        out = pre + body
+        if _falls_through(body):
+            out.append(ast.copy_location(ast.Return(value=ast.Constant(None)), at))
+        for s_ in out:
+            ast.fix_missing_locations(s_)
+        return out
     nret = sum(1 for x in _walk_own(body) if isinstance(x, ast.Return))
     if nret <= 1 and body and isinstance(body[-1], ast.Return) or nret == 0:
         last = body[-1] if body and isinstance(body[-1], ast.Return) else None
@@ -581,7 +589,10 @@ def _process_block(P, f, stmts, new, state):
             direct_assign = isinstance(s, ast.Assign) and parent is None and len(s.targets) == 1 and (isinstance(s.targets[0], ast.Name) or (
                 isinstance(s.targets[0], ast.Tuple) and all(isinstance(e_, ast.Name) for e_ in s.targets[0].elts)))
             direct_expr = isinstance(s, ast.Expr) and parent is None
-            tgt = (s.targets[0].id if isinstance(s.targets[0], ast.Name) else s.targets[0]) if direct_assign else (None if direct_expr else f'ret__h{state["n"]}')
+            direct_return = isinstance(s, ast.Return) and parent is None and not any(
+                type(x).__name__ == 'InlineBlock' for x in ast.walk(ast.Module(body=stmts, type_ignores=[]))) and state.get('in_block', 0) == 0
+            tgt = (s.targets[0].id if isinstance(s.targets[0], ast.Name) else s.targets[0]) if direct_assign else (
+                None if direct_expr else ('<return>' if direct_return else f'ret__h{state["n"]}'))
             exp = _expand(P, P.funcs[t], c, tgt, state['n'], s)
             if exp is None:
                 break
@@ -589,7 +600,7 @@ def _process_block(P, f, stmts, new, state):
             exp = _process_block(P, P.funcs[t], exp, new - {t}, state) if state['depth'] < 3 else exp
             pre += exp
             state['expanded'].append((f.qual, t))
-            if direct_assign or direct_expr:
+            if direct_assign or direct_expr or direct_return:
                 s = None
                 break
             repl = ast.copy_location(ast.Name(id=tgt, ctx=ast.Load()), node)
